@@ -71,4 +71,77 @@ def run(prop: str, ctx: Ctx, seed: int):
         "failed": failed,
     }
     extra = _await_crosscheck(ctx)
+    st["automut"] = _automut(prop, ctx, seed)
     return extra, st
+
+
+def _automut(prop: str, ctx: Ctx, seed: int, limit: int = 160) -> Dict:
+    """Systematic single-edit mutants of the functions this property's obligations are anchored
+    in, judged by this property's rules (selected obligations only).  Reported, not gating."""
+    from .selftest import automut
+    from .report import load_known
+    rules = props.rules_for(prop)
+    anchors = set()
+    for r in rules:
+        try:
+            col = props.rule_module(r).run(ctx)
+        except Exception:
+            continue
+        for o in col.obs:
+            if props.selected(prop, o.oid) and o.func.count(".") >= 2:
+                anchors.add(o.func)
+    muts = automut.generate(ctx.prog.repo)
+    def anchored(m):
+        mod = m.rel[:-3].replace("/", ".")
+        return f"{mod}.{m.func}" in anchors or any(a.startswith(f"{mod}.{m.func}.") for a in anchors)
+    muts = [m for m in muts if anchored(m)]
+    import random as _r
+    _r.Random(seed).shuffle(muts)
+    total_candidates = len(muts)
+    muts = muts[:limit]
+    if not muts:
+        return {"mutants": 0}
+    from concurrent.futures import ProcessPoolExecutor
+    with ProcessPoolExecutor(max_workers=16) as ex:
+        res = list(ex.map(_judge, [(m, ctx.prog.repo, rules, prop) for m in muts], chunksize=2))
+    by = {"killed": 0, "unknown": 0, "survived": 0}
+    for r in res:
+        by[r["status"]] += 1
+    surv = [f"{r['rel']}:{r['line']} {r['func']}: {r['desc']}" for r in res if r["status"] == "survived"]
+    return {"mutants": len(res), "candidates": total_candidates, **by, "anchored_functions": len(anchors), "survivors_sample": sorted(surv)[:25],
+            "note": "survivors are not failures: many mutants are equivalent, are caught by the test suite, or change behaviour this property does not speak about"}
+
+
+def _judge(args) -> Dict:
+    m, repo, rules, prop = args
+    import shutil, tempfile
+    from .loader import PACKAGE, Program, AnalysisError
+    from .report import load_known
+    tmp = tempfile.mkdtemp(prefix="mverif-tm-")
+    try:
+        shutil.copytree(os.path.join(repo, PACKAGE), os.path.join(tmp, PACKAGE), ignore=shutil.ignore_patterns("__pycache__"))
+        with open(os.path.join(tmp, m.rel), "w") as f:
+            f.write(m.src)
+        known = {k["key"] for k in load_known() if k.get("status") == "known"}
+        fired, unknown = [], []
+        try:
+            c2 = Ctx(Program(tmp))
+            for r in rules:
+                try:
+                    col = props.rule_module(r).run(c2)
+                    for o in col.obs:
+                        if not props.selected(prop, o.oid):
+                            continue
+                        if o.verdict == VIOLATED and o.key not in known:
+                            fired.append(o.oid)
+                        elif o.verdict == UNKNOWN:
+                            unknown.append(o.oid)
+                except AnalysisError:
+                    unknown.append(r)
+                except Exception:
+                    unknown.append(r + ":crash")
+        except AnalysisError:
+            unknown.append("load")
+        return {"status": "killed" if fired else "unknown" if unknown else "survived", "rel": m.rel, "line": m.lineno, "func": m.func, "desc": m.desc}
+    finally:
+        shutil.rmtree(tmp, ignore_errors=True)
